@@ -412,7 +412,7 @@ def convert_expression_to_statement(
     self: Expression, builder: llvm.IRBuilder, locals: dict[str, llvm.Value]
 ) -> None:
     # An expression can also be a statement; run it here and throw away the result
-    _ = ir_to_llvm_expression(self)
+    _ = ir_to_llvm_expression(self, builder, locals)
 
 
 @ir_to_llvm_statement.register(Declaration)
